@@ -72,6 +72,11 @@ type g2lUnit struct {
 	foreignTypes map[string]string // "zip.Reader" -> Lean structure name (declared in the imports / preamble) for a struct type of another package
 	limitedReaders bool          // io.LimitedReader{R, N} values are `LimitedReader` structures; io.Copy(w, lr) reads through `limRead`
 	walkCalls map[string]string  // "filepath.Walk" -> abstract parameter `Bytes → FsTree FileInfo` (what the file system holds at the root): Walk(root, func…) becomes `walkTree` over that tree with the hoisted closure
+	heapTypes map[string]string  // struct type -> field of the world structure `Heap` holding its objects: a pointer to it is an Int (0 = nil)
+	interior  map[string]string  // struct type whose pointers point INTO a heap object: "LParen" -> "LineBlock.LParen" (the pointer is the owner's pointer)
+	ownerPtr  map[string]string  // struct type embedded in every variant of a sum type: "Comments" -> "Expr" (a pointer to it is the owning sum value)
+	ownerCalls map[string]bool   // methods that return the pointer to the embedded struct of their receiver: "Comment"
+	sumNil    map[string]bool    // sum types with a nil value (constructor `nil`)
 	worldObjs map[string]bool    // struct types whose (single) instance lives in the threaded world: fields of a value of such a type are fields of `world`, its methods take no receiver
 	onceCalls map[string]string  // "c.initOnce.Do" -> Boolean world field: sync.Once.Do(f) runs the method value f unless the field is set, and sets it
 	cacheCalls map[string]string // "c.record.Do" -> world field holding the memo table (association list): parCache.Do(key, func) looks the key up and otherwise runs the function and stores its result
@@ -335,6 +340,15 @@ func (f *g2lFn) leanType(t types.Type, at ast.Node) string {
 	if ft := f.foreignType(t); ft != "" {
 		return ft
 	}
+	if _, ok := f.heapField(t); ok {
+		return "Int"
+	}
+	if _, _, ok := f.interiorOf(t); ok {
+		return "Int"
+	}
+	if sum, ok := f.ownerOf(t); ok {
+		return sum
+	}
 	if it, ok := t.Underlying().(*types.Interface); ok && it.NumMethods() == 0 && f.u.anyType != "" {
 		return f.u.anyType
 	}
@@ -447,6 +461,18 @@ func (f *g2lFn) zero(t types.Type, at ast.Node) string {
 	}
 	if ft := f.foreignType(t); ft != "" {
 		return "(default : " + ft + ")"
+	}
+	if _, ok := f.heapField(t); ok {
+		return "(0 : Int)"
+	}
+	if _, _, ok := f.interiorOf(t); ok {
+		return "(0 : Int)"
+	}
+	if sum, ok := f.ownerOf(t); ok {
+		return "(" + sum + ".nil)"
+	}
+	if n, ok := t.(*types.Named); ok && f.u.sumNil[n.Obj().Name()] {
+		return "(" + n.Obj().Name() + ".nil)"
 	}
 	if n, ok := t.(*types.Named); ok {
 		if v, ok := f.u.absTypes[n.Obj().Name()]; ok {
@@ -688,6 +714,22 @@ func (f *g2lFn) expr(b *binds, e ast.Expr) string {
 		f.bad(e, "literal %s", e.Value)
 	case *ast.UnaryExpr:
 		if e.Op == token.AND {
+			if fld, ok := f.heapField(f.typeOf(e)); ok {
+				// &T{…} of a heap type: allocate
+				f.needWorld(e)
+				v := f.expr(b, e.X)
+				p := f.fresh("p")
+				b.add(fmt.Sprintf("let (%s, hl) := heapAlloc ((world).%s) %s", p, fld, v))
+				b.add(fmt.Sprintf("let world := { (world) with %s := hl }", fld))
+				b.noteRebound("world")
+				return p
+			}
+			if _, _, ok := f.interiorOf(f.typeOf(e)); ok {
+				// &x.LParen: the pointer into the object x points to is x's pointer
+				if se, ok := e.X.(*ast.SelectorExpr); ok {
+					return f.expr(b, se.X)
+				}
+			}
 			if cl, ok := e.X.(*ast.CompositeLit); ok {
 				if n, ok := f.typeOf(cl).(*types.Named); ok && g2lImplementsError(types.NewPointer(n)) {
 					for _, el := range cl.Elts {
@@ -788,6 +830,25 @@ func (f *g2lFn) expr(b *binds, e ast.Expr) string {
 		if sel, ok := f.p.info.Selections[e]; ok && sel.Kind() == types.FieldVal {
 			// promoted fields of embedded structs: x.Before  ==>  x.Comments.Before
 			t := f.typeOf(e.X)
+			if base, ok := f.derefHeap(b, e.X); ok {
+				path := base
+				if pt, ok := t.(*types.Pointer); ok {
+					t = pt.Elem()
+				}
+				for _, ix := range sel.Index() {
+					if pt, ok := t.(*types.Pointer); ok {
+						t = pt.Elem()
+					}
+					st, ok := t.Underlying().(*types.Struct)
+					if !ok {
+						f.bad(e, "field path of %s", show(e))
+					}
+					fl := st.Field(ix)
+					path = "(" + path + "." + leanIdent(fl.Name()) + ")"
+					t = fl.Type()
+				}
+				return path
+			}
 			if f.isWorldObj(t) {
 				if f.worldVar == nil {
 					f.bad(e, "field of a world object in a function that does not thread the world")
@@ -1291,4 +1352,121 @@ func (f *g2lFn) isWorldObj(t types.Type) bool {
 	}
 	n, ok := t.(*types.Named)
 	return ok && n.Obj().Pkg() == f.p.pkg && f.u.worldObjs[n.Obj().Name()]
+}
+
+// heapField: t is a pointer to a struct of a configured heap type: the field of `Heap` that holds the objects
+func (f *g2lFn) heapField(t types.Type) (string, bool) {
+	p, ok := t.(*types.Pointer)
+	if !ok || len(f.u.heapTypes) == 0 {
+		return "", false
+	}
+	n, ok := p.Elem().(*types.Named)
+	if !ok || n.Obj().Pkg() != f.p.pkg {
+		return "", false
+	}
+	fld, ok := f.u.heapTypes[n.Obj().Name()]
+	return fld, ok
+}
+
+// interiorOf: t is a pointer to a struct that lives inside a heap object ("LineBlock", "LParen")
+func (f *g2lFn) interiorOf(t types.Type) (owner, field string, ok bool) {
+	p, isP := t.(*types.Pointer)
+	if !isP || len(f.u.interior) == 0 {
+		return "", "", false
+	}
+	n, isN := p.Elem().(*types.Named)
+	if !isN || n.Obj().Pkg() != f.p.pkg {
+		return "", "", false
+	}
+	spec, has := f.u.interior[n.Obj().Name()]
+	if !has {
+		return "", "", false
+	}
+	parts := strings.SplitN(spec, ".", 2)
+	return parts[0], parts[1], true
+}
+
+// ownerOf: t is a pointer to the struct embedded in every variant of a sum type (a *Comments is its owning Expr)
+func (f *g2lFn) ownerOf(t types.Type) (string, bool) {
+	p, ok := t.(*types.Pointer)
+	if !ok || len(f.u.ownerPtr) == 0 {
+		return "", false
+	}
+	n, ok := p.Elem().(*types.Named)
+	if !ok || n.Obj().Pkg() != f.p.pkg {
+		return "", false
+	}
+	sum, ok := f.u.ownerPtr[n.Obj().Name()]
+	return sum, ok
+}
+
+// derefHeap: the Lean term (in M, bound in b) of the struct VALUE that the pointer-typed expression x points to
+func (f *g2lFn) derefHeap(b *binds, x ast.Expr) (string, bool) {
+	t := f.typeOf(x)
+	if fld, ok := f.heapField(t); ok {
+		f.needWorld(x)
+		return f.bindM(b, fmt.Sprintf("heapGet ((world).%s) %s", fld, f.expr(b, x))), true
+	}
+	if owner, field, ok := f.interiorOf(t); ok {
+		f.needWorld(x)
+		o := f.bindM(b, fmt.Sprintf("heapGet ((world).%s) %s", f.u.heapTypes[owner], f.expr(b, x)))
+		return "((" + o + ")." + leanIdent(field) + ")", true
+	}
+	if sum, ok := f.ownerOf(t); ok {
+		f.needWorld(x)
+		return f.bindM(b, fmt.Sprintf("%s_get%s %s world", sum, f.ownedName(sum), f.expr(b, x))), true
+	}
+	return "", false
+}
+
+func (f *g2lFn) ownedName(sum string) string {
+	for k, v := range f.u.ownerPtr {
+		if v == sum {
+			return k
+		}
+	}
+	return ""
+}
+
+func (f *g2lFn) needWorld(at ast.Node) {
+	if f.worldVar == nil {
+		f.bad(at, "heap access in a function that does not thread the world")
+	}
+	f.pure = false
+}
+
+// storeHeap: write the struct value `val` to the object the pointer-typed expression x points to (lines appended)
+func (f *g2lFn) storeHeap(lines *[]string, x ast.Expr, update func(cur string) string) bool {
+	t := f.typeOf(x)
+	var b binds
+	if fld, ok := f.heapField(t); ok {
+		f.needWorld(x)
+		p := f.expr(&b, x)
+		cur := f.bindM(&b, fmt.Sprintf("heapGet ((world).%s) %s", fld, p))
+		nl := f.bindM(&b, fmt.Sprintf("heapSet ((world).%s) %s %s", fld, p, update(cur)))
+		*lines = append(*lines, b.lines...)
+		*lines = append(*lines, fmt.Sprintf("let world := { (world) with %s := %s }", fld, nl))
+		return true
+	}
+	if owner, field, ok := f.interiorOf(t); ok {
+		f.needWorld(x)
+		fld := f.u.heapTypes[owner]
+		p := f.expr(&b, x)
+		cur := f.bindM(&b, fmt.Sprintf("heapGet ((world).%s) %s", fld, p))
+		inner := "((" + cur + ")." + leanIdent(field) + ")"
+		nl := f.bindM(&b, fmt.Sprintf("heapSet ((world).%s) %s { (%s) with %s := %s }", fld, p, cur, leanIdent(field), update(inner)))
+		*lines = append(*lines, b.lines...)
+		*lines = append(*lines, fmt.Sprintf("let world := { (world) with %s := %s }", fld, nl))
+		return true
+	}
+	if sum, ok := f.ownerOf(t); ok {
+		f.needWorld(x)
+		e := f.expr(&b, x)
+		cur := f.bindM(&b, fmt.Sprintf("%s_get%s %s world", sum, f.ownedName(sum), e))
+		nw := f.bindM(&b, fmt.Sprintf("%s_set%s %s %s world", sum, f.ownedName(sum), e, update(cur)))
+		*lines = append(*lines, b.lines...)
+		*lines = append(*lines, "let world := "+nw)
+		return true
+	}
+	return false
 }
